@@ -755,3 +755,417 @@ Proof.
   exists x. split; [|exact Hs]. unfold positional_line. rewrite Ev.
   apply in_or_app. right. apply in_or_app. right. apply in_or_app. right. apply in_or_app. left. exact Hx.
 Qed.
+
+(** ---- whole script ---- *)
+Record zsh_ok (c : cmd) (b : bytes) : Prop := {
+  zo_bin : c_bin c = Some b;
+  zo_linked : linked c;
+  zo_nospace : nospace c;
+  zo_siblings : sibling_names c
+}.
+
+Definition script_head (name : bytes) : bytes :=
+  lit "#compdef " ++ name ++ lf ++ lf ++
+  lit "autoload -U is-at-least" ++ lf ++ lf ++
+  lit "_" ++ name ++ lit "() {" ++ lf ++
+  lit "    typeset -A opt_args" ++ lf ++
+  lit "    typeset -a _arguments_options" ++ lf ++
+  lit "    local ret=1" ++ lf ++ lf ++
+  lit "    if is-at-least 5.2; then" ++ lf ++
+  lit "        _arguments_options=(-s -S -C)" ++ lf ++
+  lit "    else" ++ lf ++
+  lit "        _arguments_options=(-s -C)" ++ lf ++
+  lit "    fi" ++ lf ++ lf ++
+  lit "    local context curcontext=""$curcontext"" state line" ++ lf ++
+  lit "    ".
+Definition script_tail (name : bytes) : bytes :=
+  lf ++ lf ++
+  lit "if [ ""$funcstack[1]"" = ""_" ++ name ++ lit """ ]; then" ++ lf ++
+  lit "    _" ++ name ++ lit " ""$@""" ++ lf ++
+  lit "else" ++ lf ++
+  lit "    compdef _" ++ name ++ lit " " ++ name ++ lf ++
+  lit "fi" ++ lf.
+
+(** in the class the file is: the fixed head, the [_arguments] block of the root, the structural subcommand
+    section, the [_..._commands] functions, the fixed tail *)
+Theorem zsh_pieces_shape c d b :
+  zsh_ok c b ->
+  exists details, subcommand_details c d = Some details /\
+    zsh_pieces c d = Some ([Zx (script_head b)] ++ args_block c d None ++ zspec_subs c d
+                           ++ [Zx (lf ++ lit "}" ++ lf ++ lf)] ++ details ++ [Zx (script_tail b)]).
+Proof.
+  intros [Hb Hl Hns Hsn]. unfold zsh_pieces. rewrite Hb.
+  rewrite (get_args_of_block c d None) by (rewrite Hb; discriminate).
+  rewrite (get_subcommands_of_spec (depth c) c d b Hb Hl Hns Hsn (le_n _)).
+  destruct (subcommand_details c d) as [de|] eqn:Ed.
+  2:{ exfalso. revert Ed. apply (subcommand_details_total _ _ _ Hb Hl). }
+  exists de. split; reflexivity.
+Qed.
+
+(** paths through the decorated tree: [dreach p d ws n nd par]: the words [ws] (names or visible aliases) lead from
+    [p] to [n], whose decoration is [nd] and whose parent is [par] *)
+Inductive dreach : cmd -> cdesc -> list bytes -> cmd -> cdesc -> cmd -> Prop :=
+| dreach_one p d sc sd w :
+    In (sc, sd) (zipd cd0 (c_subs p) (cd_subs d)) -> In w (sc_words sc) -> dreach p d [w] sc sd p
+| dreach_cons p d sc sd w ws n nd par :
+    In (sc, sd) (zipd cd0 (c_subs p) (cd_subs d)) -> In w (sc_words sc) -> dreach sc sd ws n nd par ->
+    dreach p d (w :: ws) n nd par.
+
+Lemma dreach_desc p d ws n nd par : dreach p d ws n nd par -> desc p n /\ (par = p \/ desc p par) /\ In n (c_subs par).
+Proof.
+  induction 1 as [p d sc sd w Hin Hw|p d sc sd w ws n nd par Hin Hw Hr IH].
+  - pose proof (zipd_in_fst _ _ _ _ _ Hin) as Hsc. split; [apply desc_child; exact Hsc|]. split; [left; reflexivity|exact Hsc].
+  - pose proof (zipd_in_fst _ _ _ _ _ Hin) as Hsc. destruct IH as (Hd & Hp & Hn).
+    split; [eapply desc_step; eauto|]. split; [|exact Hn]. right.
+    destruct Hp as [->|Hp]; [apply desc_child; exact Hsc|eapply desc_step; eauto].
+Qed.
+
+Lemma dreach_has_subs p d ws n nd par : dreach p d ws n nd par -> c_subs p <> [].
+Proof.
+  intros H E. inversion H as [p0 d0 sc sd w Hin|p0 d0 sc sd w ws0 n0 nd0 par0 Hin]; subst;
+    apply zipd_in_fst in Hin; rewrite E in Hin; destruct Hin.
+Qed.
+
+(** every [reach] path has its decorated version *)
+Lemma reach_dreach : forall c ws ns n, reach c ws ns n -> ws <> [] -> forall d, exists nd par, dreach c d ws n nd par.
+Proof.
+  induction 1 as [c|c sc w ws ns n Hin Hw Hr IH]; intros Hne d; [contradiction|].
+  destruct (zipd_has cd0 (c_subs c) sc Hin (cd_subs d)) as [sd Hsd].
+  inversion Hr; subst.
+  - exists sd, c. apply dreach_one; assumption.
+  - destruct (IH ltac:(discriminate) sd) as (nd & par & Hd). exists nd, par. eapply dreach_cons; eauto.
+Qed.
+
+Lemma args_block_nonnil c d g : c_bin c <> None -> args_block c d g <> [].
+Proof.
+  intros Hb. destruct (args_block_shape c d g Hb) as (segs & -> & _). rewrite zjoin_cons.
+  destruct segs; discriminate.
+Qed.
+
+Lemma case_block_sub name hy pos body : sublist body (case_block name hy pos body).
+Proof. unfold case_block. apply sublist_here. Qed.
+
+Lemma arm_shape blk ch w : blk <> [] ->
+  exists rest, arm blk ch w = [Zx (lit "(" ++ w ++ lit ")")] ++ nl ++ blk ++ rest /\
+               (ch <> [] -> sublist ch rest).
+Proof.
+  intros Hb. unfold arm. destruct blk as [|b0 blk]; [contradiction|]. cbn [is_nil negb app].
+  destruct ch as [|c0 ch]; cbn [is_nil negb app].
+  - rewrite !zjoin_cons. eexists. split; [reflexivity|]. intros H; contradiction.
+  - rewrite !zjoin_cons. eexists. split; [reflexivity|]. intros _.
+    apply sublist_app_l. apply sublist_app_r. apply sublist_refl.
+Qed.
+
+Lemma zspec_subs_nonnil p d : c_subs p <> [] -> zspec_subs p d <> [].
+Proof.
+  intros H. rewrite zspec_subs_unfold. destruct (c_subs p); [contradiction|]. cbn [is_nil]. discriminate.
+Qed.
+
+(** the arm of a child, inside the section of its parent *)
+Lemma arm_in_section p d sc sd w :
+  In (sc, sd) (zipd cd0 (c_subs p) (cd_subs d)) -> In w (sc_words sc) ->
+  sublist (arm (args_block sc sd (Some p)) (zspec_subs sc sd) w) (zspec_subs p d).
+Proof.
+  intros Hin Hw. rewrite (zspec_subs_unfold p d).
+  pose proof (zipd_in_fst _ _ _ _ _ Hin) as Hsc.
+  assert (Hnn : is_nil (c_subs p) = false) by (destruct (c_subs p); [destruct Hsc|reflexivity]).
+  rewrite Hnn.
+  eapply sublist_trans; [|apply case_block_sub]. apply sublist_zjoin.
+  apply in_flat_map. exists (sc, sd). split; [exact Hin|].
+  unfold arms_of. cbn [fst snd]. apply in_map. exact Hw.
+Qed.
+
+(** EVERY path: the label of the last word, a newline and the [_arguments] block of the node the path leads to
+    are a contiguous part of the subcommand section -- nested, level by level, in the arms of the words before *)
+Theorem zspec_path : forall p d ws n nd par,
+  dreach p d ws n nd par -> bins_built p ->
+  sublist ([Zx (lit "(" ++ last ws [] ++ lit ")")] ++ nl ++ args_block n nd (Some par)) (zspec_subs p d).
+Proof.
+  induction 1 as [p d sc sd w Hin Hw|p d sc sd w ws n nd par Hin Hw Hr IH]; intros Hb.
+  - pose proof (zipd_in_fst _ _ _ _ _ Hin) as Hsc.
+    eapply sublist_trans; [|apply (arm_in_section p d sc sd w Hin Hw)].
+    destruct (arm_shape (args_block sc sd (Some p)) (zspec_subs sc sd) w) as (rest & -> & _).
+    { apply args_block_nonnil. apply Hb. apply desc_child. exact Hsc. }
+    cbn [last]. exists [], rest. rewrite <- !app_assoc. reflexivity.
+  - pose proof (zipd_in_fst _ _ _ _ _ Hin) as Hsc.
+    assert (Hws : last (w :: ws) [] = last ws []) by (inversion Hr; reflexivity).
+    rewrite Hws.
+    eapply sublist_trans; [apply IH|].
+    { intros m Hm. apply Hb. eapply desc_step; eauto. }
+    eapply sublist_trans; [|apply (arm_in_section p d sc sd w Hin Hw)].
+    destruct (arm_shape (args_block sc sd (Some p)) (zspec_subs sc sd) w) as (rest & -> & Hch).
+    { apply args_block_nonnil. apply Hb. apply desc_child. exact Hsc. }
+    apply sublist_app_l, sublist_app_l, sublist_app_l. apply Hch. apply zspec_subs_nonnil.
+    eapply dreach_has_subs; exact Hr.
+Qed.
+
+(** C16 (zsh), dispatch: the generated file contains, for EVERY path of names or visible aliases, at every depth,
+    the arm label of the last word followed by the [_arguments] block of the node the path leads to *)
+Theorem zsh_script_path c d b ws n nd par :
+  zsh_ok c b -> dreach c d ws n nd par ->
+  exists s, zsh_script c d = Some s /\
+    sublist (zrender ([Zx (lit "(" ++ last ws [] ++ lit ")")] ++ nl ++ args_block n nd (Some par))) s.
+Proof.
+  intros Hok Hr. destruct (zsh_pieces_shape c d b Hok) as (de & _ & Ep).
+  unfold zsh_script. rewrite Ep. eexists; split; [reflexivity|]. apply sublist_render.
+  apply sublist_app_l, sublist_app_l, sublist_app_r.
+  apply zspec_path; [exact Hr|]. apply linked_bins_built. apply (zo_linked _ _ Hok).
+Qed.
+
+Theorem zsh_script_root c d b :
+  zsh_ok c b -> exists s, zsh_script c d = Some s /\ sublist (zrender (args_block c d None)) s.
+Proof.
+  intros Hok. destruct (zsh_pieces_shape c d b Hok) as (de & _ & Ep).
+  unfold zsh_script. rewrite Ep. eexists; split; [reflexivity|]. apply sublist_render.
+  apply sublist_app_l, sublist_app_r, sublist_refl.
+Qed.
+
+(** ---- the [_..._commands] functions ---- *)
+Lemma subcommands_of_entry p d sc sd w :
+  In (sc, sd) (zipd cd0 (c_subs p) (cd_subs d)) -> In w (sc_words sc) ->
+  sublist (describe_entry (cd_about sd) w) (subcommands_of p d).
+Proof.
+  intros Hin Hw. unfold subcommands_of.
+  set (segs := flat_map _ _).
+  assert (Hs : In (describe_entry (cd_about sd) w) segs).
+  { apply in_flat_map. exists (sc, sd). split; [exact Hin|]. cbn [fst snd]. apply in_map. exact Hw. }
+  clearbody segs. destruct segs as [|s0 segs']; [destruct Hs|]. cbn [is_nil negb].
+  apply sublist_zjoin. apply in_or_app. right. apply in_or_app. left. exact Hs.
+Qed.
+
+Lemma Forall2_in_l {A B} (R : A -> B -> Prop) l r a : Forall2 R l r -> In a l -> exists b, In b r /\ R a b.
+Proof.
+  induction 1 as [|x y l r Hxy Hrest IH]; intros Hin; [destruct Hin|].
+  destruct Hin as [->|Hin]; [exists y; split; [left; reflexivity|exact Hxy]|].
+  destruct (IH Hin) as (b & Hb & Hr). exists b. split; [right; exact Hb|exact Hr].
+Qed.
+
+(** for EVERY node of the tree the file has the function [_<bin name with __>_commands] whose list is that node's
+    subcommand list (the lookup by bin name from the root returns the node itself) *)
+Theorem details_cover c d b det n :
+  zsh_ok c b -> subcommand_details c d = Some det -> (n = c \/ desc c n) ->
+  exists nd, sublist (commands_function (bin_or_default n) (subcommands_of n nd)) det.
+Proof.
+  intros [Hb Hl Hns Hsn] Hd Hn. unfold subcommand_details in Hd. rewrite Hb in Hd.
+  destruct (all_subcommands_spec c (linked_bins_built _ Hl)) as (l & El & Hspec). rewrite El in Hd.
+  match type of Hd with match map_opt ?F ?L with _ => _ end = _ => destruct (map_opt F L) as [rest|] eqn:Er; [|discriminate] end.
+  assert (Edet : det = zjoin nl (commands_function b (subcommands_of c d) :: rest)) by (injection Hd; intros <-; reflexivity).
+  clear Hd. subst det.
+  destruct Hn as [->|Hdn].
+  - exists d. unfold bin_or_default. rewrite Hb. apply sublist_zjoin. left. reflexivity.
+  - destruct (linked_desc_bin _ _ Hl Hdn) as [nb Enb].
+    assert (Hin : In nb (dedup (sort bytes_cmp (map snd l)))).
+    { apply dedup_in, sort_in, in_map_iff. exists (c_name n, nb). split; [reflexivity|]. apply Hspec.
+      exists n. split; [exact Hdn|]. split; [exact Enb|]. left. reflexivity. }
+    apply map_opt_Forall2 in Er. destruct (Forall2_in_l _ _ _ _ Er Hin) as (y & Hy & Ey).
+    destruct (parser_of_d c d nb) as [[m md]|] eqn:Em; [|discriminate].
+    pose proof (parser_of_d_inv _ _ _ _ _ Em) as Em'.
+    pose proof (parser_of_exact c b n Hb Hl Hns Hsn (or_intror Hdn)) as Ex.
+    unfold bin_or_default in Ex. rewrite Enb in Ex. rewrite Ex in Em'. inversion Em'; subst m.
+    inversion Ey; subst y. exists md. unfold bin_or_default. rewrite Enb.
+    apply sublist_zjoin. right. exact Hy.
+Qed.
+
+Theorem zsh_script_commands c d b n :
+  zsh_ok c b -> (n = c \/ desc c n) ->
+  exists s nd, zsh_script c d = Some s /\
+    sublist (zrender (commands_function (bin_or_default n) (subcommands_of n nd))) s.
+Proof.
+  intros Hok Hn. destruct (zsh_pieces_shape c d b Hok) as (de & Ed & Ep).
+  destruct (details_cover c d b de n Hok Ed Hn) as (nd & Hs).
+  unfold zsh_script. rewrite Ep. exists (zrender ([Zx (script_head b)] ++ args_block c d None ++ zspec_subs c d
+                           ++ [Zx (lf ++ lit "}" ++ lf ++ lf)] ++ de ++ [Zx (script_tail b)])), nd.
+  split; [reflexivity|]. apply sublist_render.
+  apply sublist_app_l, sublist_app_l, sublist_app_l, sublist_app_l, sublist_app_r. exact Hs.
+Qed.
+
+(** ---- non-vacuity and class boundaries ---- *)
+Definition zx_opt : arg :=
+  mkArg (lit "color") (Some (lit "c")) (Some (lit "color")) [(lit "k", true); (lit "x", false)] [(lit "colour", true)]
+        ASet None (Some [mkPv (lit "always") false; mkPv (lit "never") false; mkPv (lit "secret") true]) None false false false.
+Definition zx_flag : arg :=
+  mkArg (lit "verbose") (Some (lit "v")) (Some (lit "verbose")) [] [] ACount None None None false false false.
+Definition zx_pos : arg :=
+  mkArg (lit "file") None None [] [] ASet None None (Some HFilePath) false false true.
+Definition zx_leaf (nm : bytes) (bin : bytes) : cmd :=
+  mkCmd nm [] [zx_opt; zx_pos] [] (Some bin) false false sets0 sets0.
+Definition zx_add : cmd :=
+  mkCmd (lit "add") [(lit "a", true); (lit "hidden", false)] [zx_flag]
+        [zx_leaf (lit "x") (lit "p add x")] (Some (lit "p add")) false false sets0 sets0.
+Definition zx_add_all : cmd := zx_leaf (lit "add-all") (lit "p add-all").
+Definition zx_root : cmd := mkCmd (lit "p") [] [zx_flag] [zx_add; zx_add_all] (Some (lit "p")) false false sets0 sets0.
+
+Lemma zx_desc n : desc zx_root n -> n = zx_add \/ n = zx_add_all \/ n = zx_leaf (lit "x") (lit "p add x").
+Proof.
+  intros H. inversion H as [c sc Hin|c sc m Hin H']; subst; cbn in Hin.
+  - destruct Hin as [<-|[<-|[]]]; auto.
+  - destruct Hin as [<-|[<-|[]]].
+    + inversion H' as [c sc Hin|c sc m Hin H'']; subst; cbn in Hin.
+      * destruct Hin as [<-|[]]; auto.
+      * destruct Hin as [<-|[]]. inversion H'' as [c sc Hin|c sc m Hin H3]; subst; cbn in Hin; destruct Hin.
+    + inversion H' as [c sc Hin|c sc m Hin H'']; subst; cbn in Hin; destruct Hin.
+Qed.
+
+(** a tree with the siblings [add] / [add-all] (one name a string prefix of the other), a visible and a hidden alias,
+    two levels, options with aliases and possible values: in the class *)
+Example zsh_ok_example : zsh_ok zx_root (lit "p").
+Proof.
+  split.
+  - reflexivity.
+  - intros p sc Hp Hin. destruct Hp as [->|Hp].
+    + cbn in Hin. destruct Hin as [<-|[<-|[]]]; eexists; split; reflexivity.
+    + destruct (zx_desc _ Hp) as [-> | [-> | -> ]]; cbn in Hin.
+      * destruct Hin as [<-|[]]. eexists; split; reflexivity.
+      * destruct Hin.
+      * destruct Hin.
+  - intros n Hn. destruct (zx_desc _ Hn) as [-> | [-> | -> ]]; cbn; intros H;
+      repeat (destruct H as [H|H]; [discriminate|]); exact H.
+  - intros p Hp. destruct Hp as [->|Hp]; [|destruct (zx_desc _ Hp) as [-> | [-> | -> ]]]; cbn;
+      repeat constructor; cbn; intuition discriminate.
+Qed.
+
+(** a decidable test for "is a contiguous part of" (used for the refutation witnesses) *)
+Fixpoint binfix (a l : bytes) : bool :=
+  starts_with l a || match l with [] => false | _ :: t => binfix a t end.
+Lemma binfix_complete a l : sublist a l -> binfix a l = true.
+Proof.
+  intros (pre & post & ->). induction pre as [|x pre IH].
+  - cbn [app]. destruct (a ++ post) eqn:E; cbn [binfix]; rewrite <- E, starts_with_app; reflexivity.
+  - cbn [app binfix]. rewrite IH. apply Bool.orb_true_r.
+Qed.
+
+(** class boundary = finding [zsh-optional-value]: an option with [num_args(0..=1)] gets its value spec
+    [min_values()] = 0 times; its possible value [zz] is nowhere in the file *)
+Definition zr_optional : arg :=
+  mkArg (lit "o") None (Some (lit "opt")) [] [] ASet (Some (0, 1)) (Some [mkPv (lit "zz") false]) None false false false.
+Lemma zsh_optional_value_refuted :
+  exists c d b s a vs pv, zsh_ok c b /\ zsh_script c d = Some s /\ In a (c_args c) /\ a_is_positional a = false /\
+    possible_values a = Some vs /\ In pv vs /\ pv_hide pv = false /\ a_min_values a = 0 /\
+    ~ sublist (pv_name pv) s.
+Proof.
+  set (c := mkCmd (lit "p") [] [zr_optional] [] (Some (lit "p")) false false sets0 sets0).
+  exists c, cd0, (lit "p"). destruct (zsh_script c cd0) as [s|] eqn:E; [|vm_compute in E; discriminate].
+  exists s, zr_optional, [mkPv (lit "zz") false], (mkPv (lit "zz") false).
+  split.
+  { split; [reflexivity| | |].
+    - intros p sc [->|Hp] Hin; [destruct Hin|]. inversion Hp as [? ? H|? ? ? H]; destruct H.
+    - intros n Hn. inversion Hn as [? ? H|? ? ? H]; destruct H.
+    - intros p [->|Hp]; [constructor|]. inversion Hp as [? ? H|? ? ? H]; destruct H. }
+  split; [reflexivity|]. split; [left; reflexivity|]. split; [reflexivity|]. split; [reflexivity|].
+  split; [left; reflexivity|]. split; [reflexivity|]. split; [reflexivity|].
+  intros Hs. apply binfix_complete in Hs. vm_compute in E. inversion E; subst s. vm_compute in Hs. discriminate.
+Qed.
+
+(** class boundary = finding [alias-without-primary]: a visible short alias of an option that has no short is
+    nowhere in the file *)
+Definition zr_alias_only : arg :=
+  mkArg (lit "o") None (Some (lit "opt")) [(lit "x", true)] [] ASet None None None false false false.
+Lemma zsh_alias_without_primary_refuted :
+  exists c d b s a, zsh_ok c b /\ zsh_script c d = Some s /\ In a (c_args c) /\ In (lit "x", true) (a_short_aliases a) /\
+    ~ sublist (lit "-x") s.
+Proof.
+  set (c := mkCmd (lit "p") [] [zr_alias_only] [] (Some (lit "p")) false false sets0 sets0).
+  exists c, cd0, (lit "p"). destruct (zsh_script c cd0) as [s|] eqn:E; [|vm_compute in E; discriminate].
+  exists s, zr_alias_only.
+  split.
+  { split; [reflexivity| | |].
+    - intros p sc [->|Hp] Hin; [destruct Hin|]. inversion Hp as [? ? H|? ? ? H]; destruct H.
+    - intros n Hn. inversion Hn as [? ? H|? ? ? H]; destruct H.
+    - intros p [->|Hp]; [constructor|]. inversion Hp as [? ? H|? ? ? H]; destruct H. }
+  split; [reflexivity|]. split; [left; reflexivity|]. split; [left; reflexivity|].
+  intros Hs. apply binfix_complete in Hs. vm_compute in E. inversion E; subst s. vm_compute in Hs. discriminate.
+Qed.
+
+(** class boundary of [parser_of_exact]: a subcommand NAME with a space.  [a b] next to [a] -> [b]: both have the bin
+    name [p a b]; the lookup returns the first in pre-order, so the arm [(a b)] carries the block of [b] and the
+    flag [-x] of [a b] is nowhere in the file (same file from the real generator) *)
+Definition zs_flag (id s : bytes) : arg := mkArg id (Some s) None [] [] ASetTrue None None None false false false.
+Definition zs_b : cmd := mkCmd (lit "b") [] [zs_flag (lit "f2") (lit "y")] [] (Some (lit "p a b")) false false sets0 sets0.
+Definition zs_a : cmd := mkCmd (lit "a") [] [] [zs_b] (Some (lit "p a")) false false sets0 sets0.
+Definition zs_ab : cmd := mkCmd (lit "a b") [] [zs_flag (lit "f1") (lit "x")] [] (Some (lit "p a b")) false false sets0 sets0.
+Definition zs_root : cmd := mkCmd (lit "p") [] [] [zs_a; zs_ab] (Some (lit "p")) false false sets0 sets0.
+Lemma zsh_space_in_name_refuted :
+  linked zs_root /\ sibling_names zs_root /\ ~ nospace zs_root /\ desc zs_root zs_ab /\
+  parser_of zs_root (bin_or_default zs_ab) = Some zs_b /\
+  exists s, zsh_script zs_root cd0 = Some s /\ ~ sublist (lit "-x[") s.
+Proof.
+  assert (Hdesc : forall n, desc zs_root n -> n = zs_a \/ n = zs_ab \/ n = zs_b).
+  { intros n H. inversion H as [c sc Hin|c sc m Hin H']; subst; cbn in Hin.
+    - destruct Hin as [<-|[<-|[]]]; auto.
+    - destruct Hin as [<-|[<-|[]]].
+      + inversion H' as [c sc Hin|c sc m Hin H'']; subst; cbn in Hin.
+        * destruct Hin as [<-|[]]; auto.
+        * destruct Hin as [<-|[]]. inversion H'' as [c sc Hin|c sc m Hin H3]; subst; cbn in Hin; destruct Hin.
+      + inversion H' as [c sc Hin|c sc m Hin H'']; subst; cbn in Hin; destruct Hin. }
+  split; [|split; [|split; [|split; [|split]]]].
+  - intros p sc [->|Hp] Hin.
+    + cbn in Hin. destruct Hin as [<-|[<-|[]]]; eexists; split; reflexivity.
+    + destruct (Hdesc _ Hp) as [-> | [-> | -> ]]; cbn in Hin; try (destruct Hin; fail).
+      destruct Hin as [<-|[]]. eexists; split; reflexivity.
+  - intros p [->|Hp]; [|destruct (Hdesc _ Hp) as [-> | [-> | -> ]]]; cbn; repeat constructor; cbn; intuition discriminate.
+  - intros H. apply (H zs_ab); [apply desc_child; right; left; reflexivity|]. cbn. auto.
+  - apply desc_child. right; left; reflexivity.
+  - reflexivity.
+  - destruct (zsh_script zs_root cd0) as [s|] eqn:E; [|vm_compute in E; discriminate].
+    exists s. split; [reflexivity|]. intros Hs. apply binfix_complete in Hs.
+    vm_compute in E. inversion E; subst s. vm_compute in Hs. discriminate.
+Qed.
+
+(** the example tree: both files exist, the [add-all] arm carries the block of [add-all] (not that of [add]) *)
+Example zsh_example_paths :
+  exists s, zsh_script zx_root cd0 = Some s /\
+    sublist (zrender ([Zx (lit "(add-all)")] ++ nl ++ args_block zx_add_all cd0 (Some zx_root))) s /\
+    sublist (zrender ([Zx (lit "(x)")] ++ nl ++ args_block (zx_leaf (lit "x") (lit "p add x")) cd0 (Some zx_add))) s.
+Proof.
+  destruct (zsh_script_path zx_root cd0 (lit "p") [lit "add-all"] zx_add_all cd0 zx_root zsh_ok_example) as (s & Es & H1).
+  { apply dreach_one; [right; left; reflexivity|left; reflexivity]. }
+  destruct (zsh_script_path zx_root cd0 (lit "p") [lit "a"; lit "x"] (zx_leaf (lit "x") (lit "p add x")) cd0 zx_add zsh_ok_example)
+    as (s' & Es' & H2).
+  { eapply dreach_cons; [left; reflexivity|right; left; reflexivity|].
+    apply dreach_one; [left; reflexivity|left; reflexivity]. }
+  rewrite Es in Es'. inversion Es'; subst s'. exists s. split; [exact Es|]. split; [exact H1|exact H2].
+Qed.
+
+(** what the accessors return: the primary spelling and every visible alias -- of an argument that HAS the primary *)
+Lemma shorts_list_complete a s :
+  a_short a = Some s -> exists l, get_short_and_visible_aliases a = Some l /\ In s l /\
+                                  forall x, In (x, true) (a_short_aliases a) -> In x l.
+Proof.
+  intros E. unfold get_short_and_visible_aliases, get_visible_short_aliases. rewrite E.
+  eexists; split; [reflexivity|]. split; [left; reflexivity|]. intros x Hx. right.
+  destruct (a_short_aliases a) as [|y t] eqn:Ea; [destruct Hx|]. cbn [is_nil]. apply visible_in. exact Hx.
+Qed.
+Lemma longs_list_complete a s :
+  a_long a = Some s -> exists l, get_long_and_visible_aliases a = Some l /\ In s l /\
+                                 forall x, In (x, true) (a_aliases a) -> In x l.
+Proof.
+  intros E. unfold get_long_and_visible_aliases, get_visible_aliases. rewrite E.
+  eexists; split; [reflexivity|]. split; [left; reflexivity|]. intros x Hx. right.
+  destruct (a_aliases a) as [|y t] eqn:Ea; [destruct Hx|]. cbn [is_nil]. apply visible_in. exact Hx.
+Qed.
+Lemma flag_spellings_complete a :
+  (forall s, a_short a = Some s -> In (lit "-", s) (flag_spellings a) /\
+                                   forall x, In (x, true) (a_short_aliases a) -> In (lit "-", x) (flag_spellings a)) /\
+  (forall l, a_long a = Some l -> In (lit "--", l) (flag_spellings a) /\
+                                  forall x, In (x, true) (a_aliases a) -> In (lit "--", x) (flag_spellings a)).
+Proof.
+  unfold flag_spellings. split.
+  - intros s E. rewrite E. split; [apply in_or_app; left; left; reflexivity|].
+    intros x Hx. apply in_or_app. left. right. apply in_map.
+    unfold get_visible_short_aliases. destruct (a_short_aliases a) as [|y t] eqn:Ea; [destruct Hx|]. cbn [is_nil].
+    apply visible_in. exact Hx.
+  - intros l E. rewrite E. split; [apply in_or_app; right; left; reflexivity|].
+    intros x Hx. apply in_or_app. right. right. apply in_map.
+    unfold get_visible_aliases. destruct (a_aliases a) as [|y t] eqn:Ea; [destruct Hx|]. cbn [is_nil].
+    apply visible_in. exact Hx.
+Qed.
+
+(** the arm of every name and visible alias of every subcommand, and the two lines that lead to them *)
+Theorem block_subcommand_lines c d g :
+  c_bin c <> None -> has_subcommands c = true ->
+  sublist [Zx (lit """:: :_" ++ space_to_dd (bin_or_default c) ++ lit "_commands"" \")] (args_block c d g) /\
+  sublist [Zx (lit """*::: :->" ++ c_name c ++ lit """ \")] (args_block c d g).
+Proof.
+  intros Hb Hs. destruct (args_block_shape c d g Hb) as (segs & -> & _ & _ & _ & H). destruct (H Hs) as [H1 H2].
+  split; apply sublist_zjoin; right; assumption.
+Qed.
